@@ -67,6 +67,10 @@ func main() {
 		}
 	}
 	prog, err := Load(*repo, overlay)
+	if err != nil && *mutant != "" {
+		fmt.Println("MUTANT-LOAD-ERROR:", err)
+		os.Exit(4)
+	}
 	if err != nil {
 		// fail closed: the program could not be resolved.
 		for _, id := range ids {
